@@ -12,6 +12,7 @@ import time
 
 VERIF = os.path.dirname(os.path.dirname(os.path.abspath(__file__)))
 FINDINGS_FILE = os.path.join(VERIF, "known_findings.json")
+OUT = os.environ.get("VERIF_OUT", VERIF)  # evidence/ and replays/ go here (scratch dir for seeded-mutation runs)
 SCHEMA = "/root/.vp/EVIDENCE.schema.json"
 
 
@@ -63,7 +64,7 @@ class Report:
         if len(self.violations) >= 40:  # keep the output readable; the count stays exact
             self.coverage["violations_not_listed"] = self.coverage.get("violations_not_listed", 0) + 1
             return
-        d = os.path.join(VERIF, "replays")
+        d = os.path.join(OUT, "replays")
         os.makedirs(d, exist_ok=True)
         import hashlib
 
@@ -108,8 +109,8 @@ class Report:
             "wall_s": round(wall, 2),
             "violations": len(self.violations),
         }
-        os.makedirs(os.path.join(VERIF, "evidence"), exist_ok=True)
-        path = os.path.join(VERIF, "evidence", f"{self.prop}.json")
+        os.makedirs(os.path.join(OUT, "evidence"), exist_ok=True)
+        path = os.path.join(OUT, "evidence", f"{self.prop}.json")
         with open(path, "w") as f:
             json.dump(ev, f, indent=1, default=str)
         try:
